@@ -47,13 +47,18 @@ def union_members(idx: SourceIndex, module: str, alias: str) -> list[str]:
     v = idx.module_constant(module, alias)
     out: list[str] = []
 
-    def go(e: ast.expr | None) -> None:
+    def go(e: ast.expr | None, depth: int = 0) -> None:
         if isinstance(e, ast.BinOp) and isinstance(e.op, ast.BitOr):
-            go(e.left), go(e.right)
+            go(e.left, depth), go(e.right, depth)
         elif e is not None:
             d = dotted(e)
             if d:
-                out.append(d.split(".")[-1])
+                name = d.split(".")[-1]
+                inner = idx.module_constant(module, name) if depth < 3 else None
+                if isinstance(inner, ast.BinOp) and isinstance(inner.op, ast.BitOr):
+                    go(inner, depth + 1)  # nested alias such as ParametrizedType
+                else:
+                    out.append(name)
 
     go(v)
     return out
